@@ -409,7 +409,9 @@ func (eng *Engine) checkProperty(id, tier string, timeoutFlag, workers int, keep
 	// replays
 	replayDir := filepath.Join(eng.verifDir, "replays")
 	os.MkdirAll(replayDir, 0o755)
-	for _, v := range viols {
+	for i, v := range viols {
+		// replays run `go test` on the real code: at most the first five violations of a run are replayed
+		eng.replayBudget = i < 5
 		eng.makeReplay(id, &cfg, v, replayDir)
 	}
 	// evidence
